@@ -488,9 +488,15 @@ class Program:
                     self.extra_dumps.add(key)
                     try:
                         self.add_unit(tr.unit.tu, tr.unit.workdir, flt=name)
-                        ent = self.find(parent, name, nparams=nargs)
+                        try:
+                            ent = self.find(parent, name, nparams=nargs)
+                        except ExtractError:
+                            # a file-local function template: one instantiation per point type, picked by the declared parameter types
+                            cd = tr.callee_decl(node)
+                            q = (cd.get('referencedDecl', {}) or {}).get('type', {}).get('qualType') or cd.get('type', {}).get('qualType')
+                            ent = self.find(parent, name, sig=q[q.index('('):], nparams=nargs)
                         self.rule('file-local helper function outside namespace romea: dumped on demand by name')
-                    except ExtractError:
+                    except (ExtractError, AttributeError, KeyError, ValueError, TypeError):
                         ent = None
                 if ent is None:
                     return None
@@ -2654,6 +2660,48 @@ class FnTranslator:
             else:
                 self.err(n, 'std::exchange on %r' % (t,))
             return ('var', nm, t)
+        if name == 'copy' and len(args) == 3:
+            # std::copy(X.data(), X.data() + n, Y.data()) on fixed-size Eigen objects: the first n coefficients in STORAGE order
+            # (Eigen's default is column-major unless the type says RowMajor)
+            def data_obj(a):
+                a = self.strip(a)
+                while a['kind'] in ('ImplicitCastExpr', 'MaterializeTemporaryExpr') and self.inner(a):
+                    a = self.strip(self.inner(a)[0])
+                if a['kind'] == 'CXXMemberCallExpr' and self.callee_decl(a).get('name') == 'data':
+                    return self.inner(self.callee_decl(a))[0]
+                return None
+            src = data_obj(args[0])
+            dst = data_obj(args[2])
+            a1 = self.strip(args[1])
+            while a1['kind'] in ('ImplicitCastExpr', 'MaterializeTemporaryExpr') and self.inner(a1):
+                a1 = self.strip(self.inner(a1)[0])
+            cnt = None
+            if a1['kind'] == 'BinaryOperator' and a1.get('opcode') == '+':
+                l, r = self.inner(a1)
+                if data_obj(l) is not None:
+                    cnt = self.const_int(r)
+            if src is not None and dst is not None and cnt is not None:
+                S_, D_ = self.eig(src), self.eig(dst)
+                if D_.lv is None or cnt > S_.rows * S_.cols or cnt > D_.rows * D_.cols:
+                    self.err(n, 'std::copy on Eigen data: shape')
+
+                def storage(ev, node, k):
+                    q = self.desugar(node) + node_type(node)
+                    m = re.search(r'Matrix<[^,]+,\s*-?\d+,\s*-?\d+,\s*(\d+)', q)
+                    rowmajor = bool(m and int(m.group(1)) & 1) and ev.rows > 1 and ev.cols > 1
+                    return (k // ev.cols, k % ev.cols) if rowmajor else (k % ev.rows, k // ev.rows)
+                out, names = [], []
+                for k in range(cnt):
+                    i, j = storage(S_, src, k)
+                    nm = self.tmp(S_.st); names.append(nm)
+                    out.append(('decl', nm, S_.st, S_.get(i, j)))
+                for k, nm in enumerate(names):
+                    i, j = storage(D_, dst, k)
+                    out.append(('assign', ('elem', D_.lv, i * D_.cols + j, D_.st), ('var', nm, D_.st)))
+                self.pre += out
+                self.rule('std::copy over Eigen .data(): the first n coefficients in storage order (column-major unless RowMajor)')
+                return None
+            self.err(n, 'std::copy: only X.data(), X.data() + const, Y.data() on fixed-size Eigen objects has a rule')
         if name == 'to_string':
             self.rule('std::to_string -> uninterpreted str_of_*')
             a = self.expr(args[0])
